@@ -414,10 +414,11 @@ func c18(r *mon.Run) {
 			gen.StFunc("length", gen.Or(n, gen.Raw("xx"))), gen.StFunc("length", gen.Or(s, gen.Raw("y"))), gen.StMultiList(gen.Or(n, gen.Raw("none")), gen.Not(gen.Current())),
 			gen.StMultiHash([]gen.Key{{Name: "n"}}, []*gen.Expr{gen.And(gen.Not(n), gen.Raw("unset"))}), gen.StFunc("length", gen.Or(gen.Field(docs.KeyName("Tags", lower)), gen.LitJSON("[1,2,3]"))),
 			gen.StMultiList(gen.Cmp("==", gen.Current(), gen.LitJSON("null")), gen.Cmp("==", n, s)),
+			gen.StFunc("length", n), gen.StFunc("length", s), // an error on the null entries only: the whole projection is an error on both forms
 		}
 	}
 	pkinds := []gen.Step{gen.StListStar(), gen.StFilter(gen.Not(gen.Current())), gen.StFilter(gen.Current()), gen.StFlatten(), gen.StSliceS("", "", ""), gen.StFilter(gen.Cmp("==", gen.Current(), gen.LitJSON("null")))}
-	nnr := len(ptrPaths) * len(pkinds) * 6 * 4 * 6
+	nnr := len(ptrPaths) * len(pkinds) * 8 * 4 * 6
 	nrw := mon.Workload{Name: "null-reviving-right-hand-sides", N: nnr,
 		Do: func(i int, t *mon.Tally) {
 			k := i
@@ -426,8 +427,8 @@ func c18(r *mon.Run) {
 			form := k % 4
 			k /= 4
 			lower := i%5 == 3
-			rhs := nullRHS(lower)[k%6]
-			k /= 6
+			rhs := nullRHS(lower)[k%8]
+			k /= 8
 			pk := pkinds[k%len(pkinds)]
 			sp := ptrPaths[k/len(pkinds)%len(ptrPaths)]
 			var st []gen.Step
@@ -574,6 +575,9 @@ func pickKey(operand string) string {
 // c18Equiv compares the struct path with the generic path of the same build.
 func c18Equiv(r *mon.Run, t *mon.Tally, wl string, idx int, tree *gen.Expr, goDoc interface{}, lower bool, mapRoot bool) {
 	expr := gen.Spell(tree)
+	if idx%2 == 1 {
+		expr = gen.SpellTight(tree) // (a short cut that recognises an expression from its text may only see one spelling)
+	}
 	generic := docs.ToGeneric(goDoc, lower)
 	if mapRoot {
 		// the generic map's own keys are not field names: keep them as written
